@@ -245,6 +245,6 @@ META = {
     "technique": "C++17 sequenced-before relation over the AST (conversion before mutation in the json setters); exhaustiveness of switch statements over the scalar tag set (case labels resolved to their declarations), table agreement tag/sizeof/union-member per specialisation, pairing of ownership flags with occaFree, guard dominance on pointer casts",
     "level": "Static decision that all 11 scalar kinds are stored under matching tag, size and union member, that each of the scalar conversion switches (newOccaType(primitive), newOccaType(primitive,type), "
              "kernelArg, primitive, primitive(type), inferJson, getDtype) covers all 11 kinds, that the kinds whose constructors set needsFree are exactly the kinds occaFree deletes (json under its flag), and that "
-             "every handle accessor checks the tag before casting. Holds for every value of every kind; the C tests never pass an occaBool as a kernel argument.",
+             "every handle accessor checks the tag before casting, the json setters convert before they mutate, and no string getter hands out a static buffer or a dead local. Holds for every value of every kind; the C tests never pass an occaBool as a kernel argument.",
     "note": "Does not decide numeric value preservation through primitive conversions (value-level), nor JSON set/get in src/c/json.cpp beyond the conversions they call.",
 }
